@@ -14,7 +14,7 @@ var progFocus = []string{
 	"Patient.name", "Patient.name.given", "Patient.name.family", "Patient", "Patient.birthDate", "Patient.active", "Patient.multipleBirth", "Patient.deceased",
 	"Patient.communication", "Patient.communication.preferred", "Patient.managingOrganization", "Patient.managingOrganization.reference", "%res.managingOrganization.reference", "%coll.distinct()", "%coll.tail()", "Patient.contained", "Patient.extension", "Patient.telecom.value",
 	"%coll", "%empty", "%res.name", "%str", "%num", "{}", "1", "'abc'", "(1 | 2 | 2 | 3)", "('b' | 'a' | 'b')", "@2020-02-29", "@2020-02-29T10:00:00.5+02:00", "@T10:30", "1.50", "4 'mg'",
-	"Patient.name.given | %coll", "Patient.name.given.first()", "Patient.extension('http://example.org/second')", "Patient.name.extension('http://example.org/second').value", "Patient.name.select(%coll.take(1))", "Patient.name.given.select(%coll.tail())", "Patient.name.select(%empty)", "Patient.name.select(%coll.skip(1).take(1))", "Patient.name.given.select(%coll).distinct()", "(%coll.take(2)).combine(Patient.name.given)", "%coll.take(1).union(Patient.name.given)", "Patient.name.given.repeat(%coll.take(1))", "Patient.name.where(family.exists())", "Patient.id",
+	"Patient.name.given | %coll", "Patient.name.given.first()", "Patient.name.given.intersect(%coll)", "%coll.intersect(Patient.name.given)", "%coll.tail().intersect(%coll)", "%coll.exclude(Patient.name.given)", "%coll.skip(1).take(1).intersect('Ann')", "%coll.distinct()", "%coll.select($this.toString())", "%coll.where($this = 'Ann')", "Patient.extension('http://example.org/second')", "Patient.name.extension('http://example.org/second').value", "Patient.name.select(%coll.take(1))", "Patient.name.given.select(%coll.tail())", "Patient.name.select(%empty)", "Patient.name.select(%coll.skip(1).take(1))", "Patient.name.given.select(%coll).distinct()", "(%coll.take(2)).combine(Patient.name.given)", "%coll.take(1).union(Patient.name.given)", "Patient.name.given.repeat(%coll.take(1))", "Patient.name.where(family.exists())", "Patient.id",
 }
 
 var progArgs = []string{
